@@ -471,6 +471,8 @@ def _corpus():
     if d.exists():
         for f in sorted(d.glob("*.json")):
             o = json.loads(f.read_text())
+            if o.get("outside_quantifier"):
+                continue   # documented behaviour outside C17's quantifier: kept for the record, not judged
             for c in (o["cases"] if "cases" in o else [o]):
                 out.append({k: v for k, v in c.items() if k in ("kind", "solver", "sizes", "width", "demands", "max_iter", "max_nodes", "columns", "init")})
     return out
@@ -500,9 +502,13 @@ def run(ctx: Ctx):
         "solve_bp: only the root node (column generation, integrality test, rounding incumbent, status rule against ceil(root LP)) is modelled; "
         "for answers produced by the tree search the correspondence is limited to: root pool / x / LP value / converged flag, status OPTIMAL iff "
         "proven(objective) w.r.t. the model's root bound, objective <= rounded incumbent; the bounded master LP with column bounds is unmodelled",
-        "optimality theorems are for eps = 0 and go through a per-run dual certificate (dual_cert_check, proved sound) evaluated on the model's final "
-        "duals for every OPTIMAL answer; soundness of the master simplex itself is not proved",
+        "optimality goes through a per-run dual certificate (dual_cert_check / dual_cert_custom, proved sound: C17_dual_cert_sound, "
+        "C17_certified_min) evaluated inside coqc on the model's final duals (solve_bp: the root duals) for every OPTIMAL answer of the "
+        "implementation, together with the proved gate on the implementation's plan; soundness of the master simplex itself is not proved "
+        "(C17_optimal_sound_full_statement); knapsack exactness (C17_pricing_exact) is for eps = 0",
         "quantifier: integer sizes only (non-multiples of 0.01 break knapsack_pricing's x100 scaling: outside C17, not generated)",
+        "custom mode: columns are non-negative integer vectors (set covering); _solve_custom does not verify demands, a column with a negative "
+        "entry can yield an OPTIMAL plan that misses a demand (corpus/C17/custom_negative_column_outside_quantifier.json) - outside the quantifier",
         "a run that exceeds the 20 s guard is skipped and counted (histogram 'hang'): termination / speed is not part of C17",
         "solve_cg custom mode with initial columns that cannot cover the demands raises OverflowError (ceil(inf)); tolerated, counted",
     ]
@@ -560,6 +566,8 @@ def run(ctx: Ctx):
         return corr, gate, cert
 
     cg_corr, cg_gate, cg_cert = family("cg", "cg_case", cg_cases, cg_meta, "corr_cg", "stable_cg", "gate_cg", "cert_cg")
+    # hypothesis of C17_optimal_partial_eps0 (y >= 0 and lp_obj <= y.d on the eps = 0 model run), cutting-stock cases
+    cg_cert = sorted(set(cg_cert) | set(ctx.coq_check("residue_cg", IMPORTS, "cg_case", "residue_cg", cg_cases, shard=150)))
     bp_corr, bp_gate, bp_cert = family("bp", "bp_case", bp_cases, bp_meta, "corr_bp", "stable_bp", "gate_bp", "cert_bp")
 
     disagree = [("corr_cg", cg_meta[i]) for i in cg_corr] + [("corr_bp", bp_meta[i]) for i in bp_corr]
